@@ -163,6 +163,12 @@ func corsBuild(cfg corsCfg, withFilter bool) corsWorld {
 		}
 	}
 	w.hnd = hnd
+	// a second service registered first; its last route and the first route of the root service
+	// have the same relative path
+	api := new(restful.WebService).Path("/api")
+	api.Route(api.GET("/reports").To(hnd("GET api/reports")))
+	c.Add(api)
+	ws.Route(ws.DELETE("/reports").To(hnd("DELETE reports")))
 	ws.Route(ws.GET("/u1").To(hnd("GET u1")))
 	ws.Route(ws.PUT("/u1").To(hnd("PUT u1")))
 	ws.Route(ws.POST("/u1").To(hnd("POST u1")))
